@@ -523,7 +523,8 @@ impl<'a> Expect<'a> {
             t if f.compact => (self.nested(t, args), true),
             t => (self.nested(t, args), false),
         };
-        let s = if boxed {
+        // a compact field carries no Box (Box<T> is not HasCompact)
+        let s = if boxed && !compact {
             format!("{}::boxed::Box<{}>", self.alloc(), inner)
         } else {
             inner
